@@ -278,7 +278,7 @@ func (w *walker) step() {
 			}
 		}
 		if completed {
-			add(1.2, sim.Action{Op: "raisemax", N: *p.Exp.Max + int64(1+r.Intn(2))})
+			add(3, sim.Action{Op: "raisemax", N: *p.Exp.Max + int64(1+r.Intn(2))})
 		} else {
 			add(0.05, sim.Action{Op: "raisemax", N: *p.Exp.Max + 1})
 		}
@@ -444,6 +444,20 @@ func (wd world) Gen(r *rand.Rand, i, n int) any {
 		h.Tear = true
 	} else {
 		h.Quiet = w.drain()
+		// a second life: the user raises maxTrialCount on an experiment at rest (the validating webhook admits it only for
+		// a restartable one; on the others the action is a no-op), more random steps, and a second drain
+		for life := 0; life < 2 && h.Quiet != nil && cfg.Max != nil && r.Intn(2) == 0; life++ {
+			p := s.Project()
+			if p.Exp == nil || p.Exp.Max == nil {
+				break
+			}
+			w.do(sim.Action{Op: "raisemax", N: *p.Exp.Max + int64(1+r.Intn(2))})
+			more := 20 + r.Intn(60)
+			for k := 0; k < more; k++ {
+				w.step()
+			}
+			h.Quiet = w.drain()
+		}
 	}
 	s.Shutdown()
 	h.Actions = w.acts
@@ -509,6 +523,23 @@ func (world) Run(input any) kit.Case {
 	c.Nontrivial = maxTrials >= 3 && (verdict || stats["fault"] > 0 || stats["abort"] > 0 || s.Conflicts > 0)
 	if verdict {
 		c.Tags = append(c.Tags, "verdict")
+	}
+	if final.Exp != nil {
+		restarted, done := false, false
+		for _, cd := range final.Exp.Conds {
+			if cd.T == 2 && cd.S == "True" {
+				restarted = true
+			}
+			if (cd.T == 3 || cd.T == 4) && cd.S == "True" {
+				done = true
+			}
+		}
+		if restarted {
+			c.Tags = append(c.Tags, "restarted")
+			if done {
+				c.Tags = append(c.Tags, "restarted-and-completed-again:"+h.Cfg.Resume)
+			}
+		}
 	}
 	if h.Quiet != nil {
 		c.Tags = append(c.Tags, "quiescent")
